@@ -67,6 +67,7 @@ type Contract struct {
 	First    string
 	FieldTypes map[string]string
 	Unreach  []string // function keys that must not be reachable through repository code
+	When     []string  // declared domain restrictions (also in Requires)
 	Covers   []*Clause // conditions that must be satisfiable at some return (guards against vacuous success paths)
 }
 
@@ -82,7 +83,7 @@ func NewContractSet() *ContractSet {
 
 var clauseKW = map[string]bool{"func": true, "extern": true, "requires": true, "ensures": true, "invariant": true, "decreases": true,
 	"modifies": true, "loop": true, "returns": true, "let": true, "lemmas": true, "reveal": true, "field": true, "modes": true,
-	"property": true, "assert": true, "pure": true, "trusted": true, "package": true, "unroll": true, "nopanic": true, "opt": true, "havoc": true, "end": true, "shape": true, "cases": true, "ghost": true, "typefact": true, "public": true, "first": true, "unreachable": true, "fieldtype": true, "snap": true, "cover": true}
+	"property": true, "assert": true, "pure": true, "trusted": true, "package": true, "unroll": true, "nopanic": true, "opt": true, "havoc": true, "end": true, "shape": true, "cases": true, "ghost": true, "typefact": true, "public": true, "first": true, "unreachable": true, "fieldtype": true, "snap": true, "cover": true, "when": true}
 
 var kwRe = regexp.MustCompile(`^([a-z]+)(\[[AH]\])?(@\S+)?(\s|$)`)
 
@@ -191,13 +192,19 @@ func (cs *ContractSet) ParseContractLines(lines []rawLine, defPkg string, file s
 				return err
 			}
 			cur.Covers = append(cur.Covers, &Clause{Kind: "cover", Mode: s.mode, Expr: e, Text: s.rest, Line: s.line})
-		case "requires", "ensures":
+		case "requires", "ensures", "when":
 			e, err := parse()
 			if err != nil {
 				return err
 			}
 			cl := &Clause{Kind: s.kw, Mode: s.mode, Expr: e, Text: s.rest, Line: s.line}
-			if s.kw == "requires" {
+			if s.kw == "when" {
+				// declared domain restriction of an entry point: a precondition that no call site in the repository
+				// discharges (the function is called by a library); reported as an assumption of every check using it
+				cl.Kind = "requires"
+				cur.Requires = append(cur.Requires, cl)
+				cur.When = append(cur.When, s.rest)
+			} else if s.kw == "requires" {
 				cur.Requires = append(cur.Requires, cl)
 			} else {
 				cur.Ensures = append(cur.Ensures, cl)
